@@ -5,7 +5,7 @@ from vlib import hx, unhx
 
 HOST = "https://access.example.io"
 TARGET = "wss://relay.example.io"
-TOPICS = ["t1", "t2", "t1x", "T1", "t-1_a"]
+TOPICS = ["t1", "t2", "stats", "t1x", "T1", "t-1_a"]     # "stats" is the relay's own reporting topic: scopes and isolation hold there too
 BIDS = ["b1", "b2", "b3"]
 ZERO = -62135596800
 
